@@ -210,6 +210,70 @@ pub fn run(r: &mut Report) {
             r.sample(format!("{case} -> {real_class}"));
         }
     }
+    // ---- second stream: a crates.io-source package can never be argued out of vetting by policy
+    // (audit-as-crates-io = false on its name, alone or shared with a path package of the same
+    // name at another version), neither unlocked nor --locked
+    let n2 = if r.thorough() { 800 } else { 96 } / nshards;
+    for i in 0..n2 {
+        let mut crng = rng.fork();
+        let tp_audited = crng.chance(1, 3);
+        let overlap = crng.chance(1, 2);
+        let versioned = overlap && crng.chance(1, 3);
+        let policy_false = crng.chance(3, 4);
+        let in_registry = crng.chance(3, 4);
+        let matching = crng.chance(1, 2);
+        let mut pkgs = vec![
+            gen::GPkg { name: "rootpkg".into(), version: VetVersion::parse("1.0.0").unwrap(), source: 0, member: true, deps: vec![(1, 1)] },
+            gen::GPkg { name: TP.into(), version: VetVersion::parse("1.0.0").unwrap(), source: 1, member: false, deps: vec![] },
+        ];
+        if overlap {
+            pkgs[0].deps.push((2, 1));
+            pkgs.push(gen::GPkg { name: TP.into(), version: VetVersion::parse("2.0.0").unwrap(), source: 0, member: false, deps: vec![] });
+        }
+        let order: Vec<usize> = (0..pkgs.len()).collect();
+        let graph = gen::GGraph { pkgs, resolve_order: order, member_order: vec![0] };
+        let mut config = ConfigFile { cargo_vet: Default::default(), default_criteria: get_default_criteria(), imports: SortedMap::new(), policy: Default::default(), exemptions: SortedMap::new() };
+        let pe = |v: bool| PolicyEntry { audit_as_crates_io: Some(v), criteria: None, dev_criteria: None, dependency_criteria: CriteriaMap::new(), notes: None };
+        if policy_false {
+            if versioned {
+                let mut m = SortedMap::new();
+                m.insert(VetVersion::parse("1.0.0").unwrap(), pe(false));
+                m.insert(VetVersion::parse("2.0.0").unwrap(), pe(false));
+                config.policy.insert(TP.into(), PackagePolicyEntry::Versioned { version: m });
+            } else {
+                config.policy.insert(TP.into(), PackagePolicyEntry::Unversioned(pe(false)));
+            }
+        }
+        let mut audits = AuditsFile { criteria: SortedMap::new(), wildcard_audits: SortedMap::new(), audits: SortedMap::new(), trusted: SortedMap::new() };
+        if tp_audited {
+            audits.audits.insert(TP.into(), vec![AuditEntry { who: vec![], criteria: vec![gen::sp(SAFE_TO_DEPLOY.to_owned())], kind: AuditKind::Full { version: VetVersion::parse("1.0.0").unwrap() }, importable: true, notes: None, aggregated_from: vec![], is_fresh_import: false }]);
+        }
+        let mut remote = cmd::Remote::default();
+        if in_registry {
+            remote.registry.insert(TP.into(), vec![cmd::RegVersion { version: semver(1), user: Some(1), day: 0 }]);
+            if matching {
+                remote.matching_metadata.insert(TP.into());
+            }
+        }
+        let w = cmd::CmdWorld { graph, config, audits, remote: remote.clone() };
+        let p = cmd::setup_project(&w);
+        remote.install();
+        r.evaluations += 1;
+        let case = format!("escape#{i}: crates.io package thirdparty:1.0.0 audited={tp_audited} policy-false={policy_false} versioned={versioned} path-namesake-2.0.0={overlap} registry={in_registry} matching={matching}");
+        r.nontrivial(&case);
+        for args in [&["--locked"][..], &[][..], &["--locked"][..]] {
+            let (o, _) = p.run(args);
+            r.oracle_checked += 1;
+            r.count(&format!("escape{}:{}", if args.is_empty() { "" } else { "-locked" }, match &o { cmd::Outcome::Ok => "ok", cmd::Outcome::Exit(_) => "exit", cmd::Outcome::Err(_) => "refused", cmd::Outcome::Panic(_) => "panic" }));
+            match &o {
+                cmd::Outcome::Ok if !tp_audited && r.prop == "C08" => {
+                    r.fail("oracle", "C08/crates-io-package-escapes-vetting", format!("`cargo vet {}` passes although thirdparty:1.0.0 comes from crates.io and has no audit or exemption", args.join(" ")), &case);
+                }
+                cmd::Outcome::Panic(m) => r.fail("oracle", "C08/panic", m.clone(), &case),
+                _ => {}
+            }
+        }
+    }
     *crate::network::VERIF_MOCK_NETWORK.lock().unwrap() = None;
     r.count_n("driver-requests", d.requests);
 }
